@@ -314,7 +314,9 @@ func TestVerifFrrHist(t *testing.T) {
 		if final != nil {
 			id++
 			perm := vPermute(r, final)
-			out.Case(id, "frr-history", cPair(cSessList(final), cSessList(perm)), map[string]any{"sessions": final, "text": text, "ok": ok, "history": h})
+			opsT, oksT := vMopTerms(h, func(int) string { return cCtor("MExtra", cStr("")) })
+			out.Case(id, "frr-history", cPair(cSessList(final), cSessList(perm)),
+				map[string]any{"sessions": final, "text": text, "ok": ok, "history": h, "ops_coq": opsT, "oks_coq": oksT})
 		}
 	}
 	// (b) the exported path with the real debouncer and the real file
